@@ -176,17 +176,16 @@ theorem deleteRepWithCheck_slots (v : Nat) (s : State) (w : Nat) (W' : SVar)
     split at h
     · rename_i hs
       simp only [hs, if_true]
-      rw [modSlot_slots] at h
-      split at h
+      have h2 := deleteRep_mono _ _ _ _ h
+      rw [modSlot_slots] at h2
+      split at h2
       · subst_vars
-        cases hd : (deleteRep r (repDisconnect r s)).slots w with
-        | none => simp [hd] at h
-        | some D1 =>
-          have := repDisconnect_mono _ _ _ _ (deleteRep_mono _ _ _ _ hd)
-          simp [hd] at h
-          subst h
-          exact ⟨D1, this, rfl, fun h => absurd rfl h, fun _ => Or.inl rfl⟩
-      · have := repDisconnect_mono _ _ _ _ (deleteRep_mono _ _ _ _ h)
+        rw [Option.map_eq_some_iff] at h2
+        obtain ⟨D1, hD1, hD1'⟩ := h2
+        have := repDisconnect_mono _ _ _ _ hD1
+        subst hD1'
+        exact ⟨D1, this, rfl, fun h => absurd rfl h, fun _ => Or.inl rfl⟩
+      · have := repDisconnect_mono _ _ _ _ h2
         exact ⟨W', this, rfl, fun _ => rfl, fun hw => by contradiction⟩
     · rename_i hs
       simp only [hs]
